@@ -26,7 +26,7 @@ def enc_atts(atts):
             out[1] = v - 39 if isinstance(v, int) and not isinstance(v, bool) and 40 <= v <= 47 else 99
         elif k in STYLE_ORDER:
             i = 2 + STYLE_ORDER.index(k)
-            out[i] = 1 if v is False else (2 if v is True else 99)
+            out[i] = 1 if v is False else (2 if v is True else (3 if v is None else 99))   # 3: explicitly None (bold=flag or None)
         else:
             out[0] = 98  # unknown attribute key
     return out
@@ -44,6 +44,8 @@ def dec_atts(a):
             d[k] = False
         elif a[2 + i] == 2:
             d[k] = True
+        elif a[2 + i] == 3:
+            d[k] = None
     return d
 
 
@@ -61,7 +63,9 @@ def enc_value(x):
 
 WARM = 0   # bit mask: the operands built next are looked at first (1 .s, 2 str(), 4 .width, 8 len() / hash / width_at_offset);
            # 16: equal runs of a value are one shared Chunk object (as f + f, f * n, join build them);
-           # 32: the recorded call is the second identical call on the same operand objects (fmtlib._again)
+           # 32: the recorded call is the second identical call on the same operand objects (fmtlib._again);
+           # 64: the same call was cut short by a foreign exception at some line first (fmtlib._cut_short);
+           # 128: operands are instances of a FmtStr subclass with a constructor of its own
 
 
 def warm(f, mask):
@@ -86,15 +90,38 @@ def warm(f, mask):
     return f
 
 
+_SUB = []
+
+
+def _subclass():
+    """an application's subclass of FmtStr: a helper method and a constructor with a signature of its own
+    (a label first, then the runs); operations on its instances must behave like operations on their text"""
+    if not _SUB:
+        from curtsies.formatstring import FmtStr
+
+        class Labelled(FmtStr):
+            def __init__(self, label, *chunks):
+                if not isinstance(label, str):
+                    raise TypeError("Labelled(label, *chunks): label must be a str")
+                super().__init__(*chunks)
+                self.label = label
+
+            def shout(self):
+                return self.upper()
+        _SUB.append(lambda *chunks: Labelled("row", *chunks))
+    return _SUB[0]
+
+
 def build_fmtstr(runs):
     """runs -> real FmtStr built from Chunks (used by enumerations; the public constructors are
     exercised separately by C14/C01 spellings)."""
     from curtsies.formatstring import FmtStr, Chunk
+    cls = _subclass() if WARM & 128 else (lambda *chunks: FmtStr(*chunks))
     if WARM & 16:
         made = {}
-        f = FmtStr(*(made.setdefault(json.dumps([t, a]), Chunk(dec_text(t), dec_atts(a))) for t, a in runs))
+        f = cls(*(made.setdefault(json.dumps([t, a]), Chunk(dec_text(t), dec_atts(a))) for t, a in runs))
     else:
-        f = FmtStr(*(Chunk(dec_text(t), dec_atts(a)) for t, a in runs))
+        f = cls(*(Chunk(dec_text(t), dec_atts(a)) for t, a in runs))
     return warm(f, WARM) if WARM & 15 else f
 
 
